@@ -36,6 +36,7 @@ From Verif Require Common.Lx Cursor.Model Cursor.Proofs.
 From Verif Require Xml.Model Xml.Step Xml.Proofs.
 From Verif Require Json.Model Json.Spec Json.Proofs Json.Trace Json.Sticky Json.Stuck Json.Congr.
 From Verif Require Gen.Tables Html.Model Html.ListLemmas Html.Safety Html.Step Html.Proofs.
+From Verif Require JsLex.Model JsLex.Lemmas JsLex.Next JsLex.Proofs.
 
 Module Cursor.
   Import Verif.Cursor.Model Verif.Cursor.Proofs.
@@ -115,3 +116,35 @@ Module Html.
   Proof. exact html_no_overread_proof. Qed.
   Print Assumptions html_no_overread.
 End Html.
+
+Module JsLex.
+  Import Verif.Common.Lx Verif.Gen.Tables Verif.JsLex.Model Verif.JsLex.Lemmas Verif.JsLex.Next Verif.JsLex.Proofs.
+  (* every history of Next / RegExp calls on every byte string succeeds (no panic, no endless loop) and the cursor
+     stays inside the input; ids/idc/zs are the Unicode classes as arbitrary predicates *)
+  Theorem jslex_total_run :
+    forall (ids idc zs : Z -> bool) (d : list Z) (ops : list jop),
+      exists ts s', jrun ids idc zs ops (js_init d) = Ok (ts, s') /\ length ts = length ops /\
+        lbuf (jcur s') = d ++ [0] /\ 0 <= lstart (jcur s') <= lpos (jcur s') /\ lpos (jcur s') <= len d.
+  Proof. exact jslex_total_run_proof. Qed.
+  Print Assumptions jslex_total_run.
+  (* a measure bounded by 2*len+1 strictly decreases with every call that is not the end-of-input report *)
+  Theorem jslex_progress_measure :
+    forall (ids idc zs : Z -> bool) s t s', js_wf s -> next ids idc zs s = Ok (t, s') ->
+      jmeasure s' < jmeasure s \/
+      (t = (ErrorToken, None) /\ at_end (jcur s) = true /\ js_err s' = 1 /\ jcur s' = jcur s).
+  Proof. exact jslex_progress_measure_proof. Qed.
+  Print Assumptions jslex_progress_measure.
+  Theorem jslex_eof_sticky :
+    forall (ids idc zs : Z -> bool) s, js_wf s -> at_end (jcur s) = true ->
+      exists s', next ids idc zs s = Ok ((ErrorToken, None), s') /\
+        jcur s' = jcur s /\ js_err s' = 1 /\ next ids idc zs s' = Ok ((ErrorToken, None), s').
+  Proof. exact jslex_eof_sticky_proof. Qed.
+  Print Assumptions jslex_eof_sticky.
+  Theorem jslex_no_overread :
+    forall (ids idc zs : Z -> bool) d s o ty b s',
+      js_wf s -> lbuf (jcur s) = d ++ [0] -> jstep ids idc zs o s = Ok ((ty, Some b), s') ->
+      exists lo, 0 <= lo <= lpos (jcur s') /\ lpos (jcur s') <= len d /\ b = slice d lo (lpos (jcur s')) /\
+        lstart (jcur s') = lpos (jcur s') /\ (o = ONext -> lo = lstart (jcur s)).
+  Proof. exact jslex_no_overread_proof. Qed.
+  Print Assumptions jslex_no_overread.
+End JsLex.
